@@ -252,6 +252,145 @@ func (r *run) attempt(t *rapid.T) {
 	}
 }
 
+// pendingInBoth lists the wallet's unconfirmed transactions that the model node
+// holds too, in a stable order.
+func (r *run) pendingInBoth() []*wire.MsgTx {
+	s := r.Scenario
+	var out []*wire.MsgTx
+	for _, h := range r.unconfirmed() {
+		if tx := s.F.Chain.LookupTx(h); tx != nil && s.F.Chain.InMempool(h) {
+			out = append(out, tx)
+		}
+	}
+	sort.Slice(out, func(a, b int) bool { return out[a].TxHash().String() < out[b].TxHash().String() })
+	return out
+}
+
+// refund: somebody who was paid by a still unconfirmed wallet transaction pays
+// part of it back to the wallet, spending the unconfirmed output.
+func (r *run) refund(t *rapid.T) {
+	s := r.Scenario
+	s.F.Quiesce()
+	type cand struct {
+		tx  *wire.MsgTx
+		idx int
+	}
+	var cands []cand
+	for _, tx := range r.pendingInBoth() {
+		for i, o := range tx.TxOut {
+			if _, own := s.Book.ByScript[string(o.PkScript)]; !own && o.Value > 3000 && ownFromWallet(s, o.PkScript) == nil {
+				spent := false
+				for _, m := range s.F.Chain.Mempool() {
+					for _, in := range m.TxIn {
+						if in.PreviousOutPoint == (wire.OutPoint{Hash: tx.TxHash(), Index: uint32(i)}) {
+							spent = true
+						}
+					}
+				}
+				if !spent {
+					cands = append(cands, cand{tx, i})
+				}
+			}
+		}
+	}
+	if len(cands) == 0 {
+		return
+	}
+	cd := cands[rapid.IntRange(0, len(cands)-1).Draw(t, "refundFrom")]
+	own := s.Book.List[rapid.IntRange(0, len(s.Book.List)-1).Draw(t, "refundTo")]
+	rtx := wire.NewMsgTx(2)
+	rtx.AddTxIn(wire.NewTxIn(&wire.OutPoint{Hash: cd.tx.TxHash(), Index: uint32(cd.idx)}, nil, nil))
+	rtx.AddTxOut(wire.NewTxOut(cd.tx.TxOut[cd.idx].Value-700, own.Script))
+	s.F.Chain.AddToMempool(rtx)
+	s.F.Quiesce()
+	s.C.Logf("refund %s: the payee of %s:%d pays the wallet back from the unconfirmed output", rtx.TxHash().String()[:8], cd.tx.TxHash().String()[:8], cd.idx)
+	if !r.known(rtx.TxHash()) {
+		s.F.Violation("the wallet does not record the unconfirmed transaction %v that pays one of its addresses", rtx.TxHash())
+	}
+	s.F.CheckBalances("after refund", s.Book, []int32{0, 1})
+	s.C.Class("refund-spending-an-unconfirmed-payment")
+}
+
+// republish hands a recorded, still unconfirmed transaction to the wallet
+// again; the node has dropped it meanwhile (with everything spending it) and
+// now refuses it, or still has it.
+func (r *run) republish(t *rapid.T) {
+	s := r.Scenario
+	s.F.Quiesce()
+	pend := r.pendingInBoth()
+	if len(pend) == 0 {
+		return
+	}
+	p := pend[rapid.IntRange(0, len(pend)-1).Draw(t, "republishWhich")]
+	ph := p.TxHash()
+	reject := rapid.IntRange(0, 3).Draw(t, "republishRejected") > 0
+	// the unconfirmed descendants of p the wallet knows
+	desc := map[chainhash.Hash]bool{ph: true}
+	for grew := true; grew; {
+		grew = false
+		for _, h := range r.unconfirmed() {
+			tx := s.F.Chain.LookupTx(h)
+			if tx == nil || desc[h] {
+				continue
+			}
+			for _, in := range tx.TxIn {
+				if desc[in.PreviousOutPoint.Hash] {
+					desc[h] = true
+					grew = true
+				}
+			}
+		}
+	}
+	if !reject {
+		err := s.F.W.PublishTransaction(p, "")
+		s.F.Quiesce()
+		s.C.Logf("republish %s (node still has it) -> %v", ph.String()[:8], err)
+		if err != nil {
+			s.F.Violation("publishing %v again, which the node still holds, failed: %v", ph, err)
+		}
+		if !r.known(ph) {
+			s.F.Violation("transaction %v is no longer recorded after it was published again (node: already in mempool)", ph)
+		}
+		s.F.CheckBalances("after republish (already in mempool)", s.Book, []int32{0, 1})
+		s.C.Class("republish:already-in-mempool")
+		return
+	}
+	// the node evicted p and whatever spent it, and refuses p now
+	for _, m := range s.F.Chain.Mempool() {
+		drop := desc[m.TxHash()]
+		for _, in := range m.TxIn {
+			if desc[in.PreviousOutPoint.Hash] {
+				drop = true
+			}
+		}
+		if drop {
+			desc[m.TxHash()] = true
+			s.F.Chain.DropFromMempool(m.TxHash())
+		}
+	}
+	why := rapid.SampledFrom([]error{chain.ErrInsufficientFee, chain.ErrMempoolMinFeeNotMet, errors.New("-26: some other reason")}).Draw(t, "republishWhy")
+	s.F.Client.SendAnswer = func(tx *wire.MsgTx) error { return why }
+	err := s.F.W.PublishTransaction(p, "")
+	s.F.Client.SendAnswer = nil
+	s.F.Quiesce()
+	s.C.Logf("republish %s (node refuses: %v; %d unconfirmed transactions hang off it) -> %v", ph.String()[:8], why, len(desc)-1, err)
+	if err == nil {
+		s.F.Violation("the node refused %v but PublishTransaction reported success", ph)
+	}
+	for h := range desc {
+		if r.known(h) {
+			s.F.Violation("the broadcast of %v failed, but %v (the transaction itself or an unconfirmed transaction spending its outputs) is still recorded", ph, h)
+		}
+	}
+	s.F.CheckBalances("after refused republish", s.Book, []int32{0, 1})
+	s.C.Class("republish:refused")
+	if len(desc) > 1 {
+		s.C.Class("republish:refused-with-descendants")
+		s.C.NonTrivial()
+	}
+	r.chainPending = false
+}
+
 func (r *run) registerChange(tx *wire.MsgTx) {
 	s := r.Scenario
 	for _, to := range tx.TxOut {
@@ -410,6 +549,7 @@ func TestC20Broadcast(t *testing.T) {
 		c := g.Begin()
 		defer c.End()
 		s := walletsim.NewScenario(t, "C20", c, 5, 0)
+		s.F.StallIsViolation = true
 		defer s.F.Close()
 		r := &run{Scenario: s, g: g}
 		// funding: several confirmed coins per scope, some unconfirmed
@@ -421,7 +561,7 @@ func TestC20Broadcast(t *testing.T) {
 		}
 		steps := rapid.IntRange(2, maxSteps).Draw(t, "steps")
 		for i := 0; i < steps; i++ {
-			step := rapid.SampledFrom([]string{"attempt", "attempt", "attempt", "attempt", "mine", "resync", "resync"}).Draw(t, "step")
+			step := rapid.SampledFrom([]string{"attempt", "attempt", "attempt", "attempt", "mine", "resync", "resync", "refund", "refund", "republish"}).Draw(t, "step")
 			if r.chainPending && rapid.Bool().Draw(t, "resyncWhileChained") {
 				step = "resync"
 			}
@@ -433,6 +573,10 @@ func TestC20Broadcast(t *testing.T) {
 				r.chainPending = false
 			case "resync":
 				r.resync(t)
+			case "refund":
+				r.refund(t)
+			case "republish":
+				r.republish(t)
 			}
 		}
 	})
